@@ -181,6 +181,15 @@ fn gen(rng: &mut Rng, _i: u64) -> String {
 	if rng.chance(1, mut_p) { ao = bad_addr(rng, ao); }
 	if rng.chance(1, mut_p) { nfuncs_field = match rng.below(5) { 0 => 0, 1 => 0xFFFF_FFFF, 2 => 0x4000_0000, 3 => nf as u32 + rng.range(1, 3) as u32, _ => (nf as u32).saturating_sub(1) }; }
 	if rng.chance(1, mut_p) { nnames_field = match rng.below(5) { 0 => 0, 1 => 0xFFFF_FFFF, 2 => 0x8000_0000, 3 => nn as u32 + rng.range(1, 3) as u32, _ => (nn as u32).saturating_sub(1) }; }
+	// seed C03-19: NULL tables with a huge declared count - an iterator bounded by the raw header field instead of the
+	// (empty) validated table runs for 2^32 steps over a file of a few KiB
+	if rng.chance(1, 40) {
+		match rng.below(3) {
+			0 => { an = 0; ao = 0; nnames_field = *rng.pick(&[0xFFFF_FFFFu32, 0x7FFF_FFFF, 0x0400_0000]); },
+			1 => { af = 0; nfuncs_field = *rng.pick(&[0xFFFF_FFFFu32, 0x7FFF_FFFF, 0x0400_0000]); },
+			_ => { af = 0; an = 0; ao = 0; nfuncs_field = 0xFFFF_FFFF; nnames_field = 0xFFFF_FFFF; },
+		}
+	}
 	w32(&mut data, 12, dll_rva);
 	w32(&mut data, 16, base);
 	w32(&mut data, 20, nfuncs_field);
@@ -308,11 +317,17 @@ macro_rules! by_tables {
 		$out.push(format!("n={}", join(by.names(), ",")));
 		$out.push(format!("i={}", join(by.name_indices(), ",")));
 		$out.push(format!("sorted={}", match by.check_sorted() { Ok(true) => "b1".to_string(), Ok(false) => "b0".to_string(), Err(e) => format!("e{:?}", e) }));
-		let it: Vec<String> = by.iter().map(|r| rexp(r)).collect();
+		// no iterator of the export tables yields more items than the validated tables hold (the image is a few KiB: 65536 is
+		// far beyond any table that fits) - seed C03-19
+		const CAP: usize = 65536;
+		let it: Vec<String> = by.iter().take(CAP + 1).map(|r| rexp(r)).collect();
+		assert!(it.len() <= CAP, "harness: more exported functions than the image holds");
 		$out.push(format!("it={}", join(&it, ",")));
-		let itn: Vec<String> = by.iter_names().map(|(n, e)| format!("{}/{}", rname(n), rexp(e))).collect();
+		let itn: Vec<String> = by.iter_names().take(CAP + 1).map(|(n, e)| format!("{}/{}", rname(n), rexp(e))).collect();
+		assert!(itn.len() <= CAP, "harness: more export names than the image holds");
 		$out.push(format!("itn={}", join(&itn, ",")));
-		let itni: Vec<String> = by.iter_name_indices().map(|(n, i)| format!("{}/{}", rname(n), i)).collect();
+		let itni: Vec<String> = by.iter_name_indices().take(CAP + 1).map(|(n, i)| format!("{}/{}", rname(n), i)).collect();
+		assert!(itni.len() <= CAP, "harness: more export name indices than the image holds");
 		$out.push(format!("itni={}", join(&itni, ",")));
 	}};
 }
